@@ -28,7 +28,7 @@ EXPLANATION = ('For each operator program three traces are proved equivalent for
 FUNCTIONS = ['every operator class (equinox field declarations, static vs. dynamic)', 'every mv reached', 'Landscape/StokesLandscape/HealpixLandscape/FrequencyLandscape.tree_flatten/tree_unflatten']
 BOUNDS = {'quick': 'catalogue leaves of 4 families, .T, closed-form .I, 25 composites per family; boolean-mask operators excluded from T2 (as in the statement); landscapes: nside 1,2,4,8 x 4 Stokes kinds x 2 dtypes, 2-d/3-d maps',
           'thorough': 'up to 2 500 composites per family'}
-BOUNDS['quick'] += '; 9 pairs of operators differing in one static field through one jitted function (concrete executions)'
+BOUNDS['quick'] += '; every leaf, leaf.T and closed-form leaf.I of six families executed with 64-bit mode off (eager / closure jit / filter_jit argument / round trip, concrete); 9 pairs of operators differing in one static field through one jitted function (concrete executions)'
 STUBS = ['lineax.linear_solve contract stub for programs with a lazy inverse']
 ASSUMPTIONS = ['real arithmetic: equality of the IRs\' denotations; floating-point agreement of compiled vs op-by-op execution is only sampled numerically (rtol 1e-6)',
                'jax.jit with the operator as a plain argument (non-array leaves traced) is not part of the statement']
@@ -59,6 +59,11 @@ def cases(tier, seed):
             out.append(('landscape', 'stokes', shape, st, 'float32'))
             out.append(('landscape', 'stokes-pixel', shape, st, 'float64'))
     out += [('alias', n) for n in _alias_pairs()]
+    # 64-bit mode off: the same real executions (eager, jit over a closure, filter_jit argument, flatten/unflatten) in float32
+    for fam in ('vec', 'mat', 'stokes', 'tree', 'iquv', 'qu'):
+        base = [('leaf', n, 0) for n in FAM[fam]]
+        for e in base + [('T', b) for b in base] + [('I', ('leaf', n, 0)) for n in c04.CLOSED_INV.get(fam, ())]:
+            out.append(('jit32', fam, e))
     return out
 
 
@@ -85,6 +90,8 @@ def run_case(key, twin=False):
         return _config()
     if key[0] == 'alias':
         return _alias(key[1])
+    if key[0] == 'jit32':
+        return _jit32(key[1], key[2])
     from ..catalogue import leaf_names
     _, fam, e = key
     bld = Builder(fam)
@@ -249,6 +256,36 @@ def _landscape(key):
     return ok(obligations=0, roundtrip_checks=1, nontrivial=True, sample=dict(landscape=type(ls).__name__, args=repr(key[2:])))
 
 
+def _jit32(fam, e):
+    """Concrete executions with jax_enable_x64 off (float32 parameters and data)."""
+    from ..catalogue import leaf_names
+    from ..common import default_dtype, f32
+    e = _tuplify(e)
+    with jax.enable_x64(False), default_dtype(f32):
+        try:
+            op0 = build_concrete(fam, e)
+            op0.in_structure()
+        except Exception as ex:  # noqa: BLE001
+            return skipped(f'construction raises {type(ex).__name__}')
+        msg = _real_jit(fam, e, op0, bool(MASK_LEAVES & set(leaf_names(e))))
+        if msg is None:
+            try:
+                leaves, tdef = jax.tree.flatten(op0)
+                back = jax.tree.unflatten(tdef, leaves)
+                x = jax.tree.map(lambda l: (jnp.arange(1, int(np.prod(l.shape)) + 1, dtype=l.dtype).reshape(l.shape) / 7), op0.in_structure())
+                a, b = back.mv(x), op0.mv(x)
+                if jax.tree.structure(a) != jax.tree.structure(b) or any(u.shape != v.shape or u.dtype != v.dtype for u, v in zip(jax.tree.leaves(a), jax.tree.leaves(b))):
+                    msg = 'flatten/unflatten changes shapes/dtypes of the result'
+                else:
+                    close, m2 = trees_close(a, b, rtol=1e-6)
+                    msg = None if close else f'flatten/unflatten changes the result: {m2}'
+            except Exception as ex:  # noqa: BLE001
+                msg = f'flatten/unflatten round trip raises {type(ex).__name__}: {str(ex)[:100]}'
+    if msg:
+        return violation(f'[x64 off] {show(e)} [{fam}]: {msg}', signature=f'c18-jit32:{fam}:{show(e)}', kind='jit32')
+    return ok(obligations=0, concrete_checks=4, nontrivial=True, sample=dict(case=f'x64 off: {show(e)} [{fam}]'))
+
+
 def _QUIET(solution):
     return None
 
@@ -336,7 +373,7 @@ def replay(key, model, info):
         key, twin = key[1], True
     key = _tuplify(key)
     kind = info.get('kind')
-    if key[0] in ('landscape', 'config', 'alias'):
+    if key[0] in ('landscape', 'config', 'alias', 'jit32'):
         r = run_case(key)
         return r['status'] == 'violation', r.get('what', 'ok')
     _, fam, e = key
